@@ -9,7 +9,7 @@ import c05
 
 LEVEL = "model_checking"
 FOCUS = "C15"
-ALL_DEVS = ("ebb_ok", "ebb_late", "ebb_old", "ebb_late_old", "ebb_noversion", "ebb_in_text", "non_ebb", "silent", "unopenable", "absent", "raise_on_probe") + L.VERSION_DEVS
+ALL_DEVS = ("ebb_ok", "ebb_late", "ebb_old", "ebb_late_old", "ebb_noversion", "ebb_in_text", "non_ebb", "other_versioned", "silent", "unopenable", "absent", "raise_on_probe") + L.VERSION_DEVS
 
 
 def vs(t):
